@@ -16,6 +16,7 @@ import base64
 import json
 import pickle
 import random
+import signal
 import sys
 import time
 
@@ -114,6 +115,57 @@ def start_only_atom(ast):
     return False
 
 
+def count_atoms(f):
+    out = []
+
+    class V(L.FormulaVisitor):
+        def visit_semantic_predicate_formula(self, x):
+            if x.predicate.name == "count" and len(x.args) == 3 and isinstance(x.args[1], str) \
+                    and isinstance(x.args[2], str):
+                out.append(x.args)
+    f.accept(V())
+    return out
+
+
+def py_kcount(graph, t, f):
+    """mirror of Eval3.K_count_insert (checked against Coq on every case)"""
+    for x, needle, num in count_atoms(f):
+        try:
+            k = int(num)
+        except ValueError:
+            continue
+        if not any(graph.reachable(s.value, needle) for _, s in t.open_leaves()):
+            continue
+        if isinstance(x, L.Constant):
+            if len(t.filter(lambda n: n.value == needle)) < k:
+                return True
+        elif k >= 1:
+            return True
+    return False
+
+
+class EvalTimeout(BaseException):
+    pass
+
+
+def _alarm(*_):
+    raise EvalTimeout()
+
+
+def impl_evaluate_t(fobj, t, g, seconds=4):
+    """evaluate() with a wall-clock limit (count's tree-insertion search does not always terminate
+    quickly); ('timeout', None) when the limit is hit"""
+    old = signal.signal(signal.SIGALRM, _alarm)
+    signal.alarm(seconds)
+    try:
+        return impl_evaluate(fobj, t, g)
+    except EvalTimeout:
+        return ("timeout", None)
+    finally:
+        signal.alarm(0)
+        signal.signal(signal.SIGALRM, old)
+
+
 def tree_arg_formulas(rng, g, tp):
     """formulas with instantiated tree arguments (subtrees of the closed tree t')"""
     nts = [k for k in g if k != "<start>"]
@@ -137,6 +189,97 @@ def tree_arg_formulas(rng, g, tp):
     return out
 
 
+def same_type_cuts(rng, t):
+    """2-4 open leaves of ONE nonterminal, in different subtrees (none below another)"""
+    by = {}
+    for p, s in t.paths():
+        if is_nonterminal(s.value) and p:
+            by.setdefault(s.value, []).append(p)
+    cands = [ty for ty, ps in by.items() if len(ps) >= 2]
+    rng.shuffle(cands)
+    for ty in cands:
+        ps = by[ty][:]
+        rng.shuffle(ps)
+        cuts, want = set(), rng.randint(2, 4)
+        for p in ps:
+            if len(cuts) < want and not any(p[:len(q)] == q or q[:len(p)] == p for q in cuts):
+                cuts.add(p)
+        if len(cuts) >= 2:
+            return cuts
+    return rand_cuts(rng, t)
+
+
+def nested_formulas(rng, g, graph, tp, cuts=(), n=6):
+    """Q1 <A> a in start: Q2 <B> v in a: body  with B reachable from A: the might-match test of the
+    inner quantifier must look at every open leaf below the current `a` only"""
+    nts = [k for k in g if k != "<start>"]
+    pairs = [(a, b) for a in nts for b in nts if a != b and graph.reachable(a, b)]
+    subs = {}
+    for _, s in tp.paths():
+        if is_nonterminal(s.value):
+            subs.setdefault(s.value, []).append(str(s))
+    cut_subs = {}       # strings that only exist in the completion (inside the cut subtrees)
+    for c in cuts:
+        for _, s in tp.get_subtree(c).paths():
+            if is_nonterminal(s.value):
+                cut_subs.setdefault(s.value, []).append(str(s))
+    out = []
+    for i in range(n):
+        if not pairs:
+            break
+        a_ty, b_ty = rng.choice(pairs)
+        a, v = ("na%d" % i, a_ty), ("nv%d" % i, b_ty)
+        r = rng.random()
+        if r < 0.55:
+            if cut_subs.get(b_ty) and rng.random() < 0.5:
+                lit = rng.choice(cut_subs[b_ty])
+            elif subs.get(b_ty) and rng.random() < 0.8:
+                lit = rng.choice(subs[b_ty])
+            else:
+                lit = rng.choice(c03.LITS)
+            body = ("streq", rng.random() < 0.25, ("var", v), ("lit", lit))
+        elif r < 0.75:
+            body = ("len", rng.choice(c03.CMPS), ("var", v), rng.randint(0, 4))
+        else:
+            body = ("sp", rng.choice(c03.PRED2), [("var", v), ("var", a)] if rng.random() < 0.5
+                    else [("var", a), ("var", v)])
+        if rng.random() < 0.2:
+            body = ("not", body)
+        inner = (rng.choice(["forall", "exists"]), v, a, None, body)
+        if rng.random() < 0.2:
+            inner = ("not", inner)
+        out.append((rng.choice(["forall", "exists"]), a, ("start", "<start>"), None, inner))
+    return out
+
+
+def count_formulas(rng, g, graph, t, n=6):
+    """count atoms, plain and negated, preferably with a RECURSIVE needle that also labels an open
+    leaf of t; target = current number of needles, one less, one more"""
+    nts = [k for k in g if k != "<start>"]
+    rec = [k for k in nts if graph.reachable(k, k)]
+    open_labels = {s.value for _, s in t.open_leaves()}
+    pref = [k for k in rec if k in open_labels]
+    out = []
+    for i in range(n):
+        needle = rng.choice(pref) if pref and rng.random() < 0.6 else rng.choice(rec or nts) \
+            if rng.random() < 0.7 else rng.choice(nts)
+        if rng.random() < 0.75:
+            cur = len(t.filter(lambda x: x.value == needle))
+            more = any(graph.reachable(s.value, needle) for _, s in t.open_leaves())
+            delta = rng.choice([-1, 0, 0] if more else [-1, 0, 0, 1])   # +1 with `more` = insertion search
+            body = ("count", ("start", "<start>"), needle, str(max(0, cur + delta)))
+            if rng.random() < 0.5:
+                body = ("not", body)
+            out.append(body)
+        else:
+            a = ("ca%d" % i, rng.choice(nts))
+            body = ("count", a, needle, str(rng.randint(0, 3)))
+            if rng.random() < 0.5:
+                body = ("not", body)
+            out.append((rng.choice(["forall", "exists"]), a, ("start", "<start>"), None, body))
+    return out
+
+
 def build3(ast):
     if ast[0] == "tree_in":
         _, kind, bv, tree, body = ast
@@ -149,12 +292,14 @@ def build3(ast):
 # known findings
 # --------------------------------------------------------------------------
 def known_entries():
-    es = lib.known_findings("C06")
-    if not es:
-        import os
-        p = os.path.join(lib.VERIF, "harness", "meta", "C06.findings.json")
-        if os.path.exists(p):
-            es = json.load(open(p))
+    """known_findings.json is GENERATED from harness/meta/C06.findings.json; entries of the source
+    file that the generated file does not have yet (not regenerated) are taken from the source"""
+    import os
+    es = list(lib.known_findings("C06") or [])
+    p = os.path.join(lib.VERIF, "harness", "meta", "C06.findings.json")
+    if os.path.exists(p):
+        have = {e.get("key") for e in es}
+        es += [e for e in json.load(open(p)) if e.get("key") not in have]
     return es
 
 
@@ -185,12 +330,13 @@ def replay_known(run):
 
 IMPORTS = "Eval3"
 CST_DEF = f"Definition CST := {g_var(START)}.\n"
-OK_DEF = ("fun c : nat * formula atom * res TV * res TV * bool * bool => "
-          "let '(k, f, ev, ev', ks, kn) := c in let '(G, T, T') := nth k ENV ([], DUMMY, DUMMY) in "
+OK_DEF = ("fun c : nat * formula atom * res TV * res TV * bool * bool * bool => "
+          "let '(k, f, ev, ev', ks, kn, kc) := c in let '(G, T, T') := nth k ENV ([], DUMMY, DUMMY) in "
           "let skip := fun r : res TV => match r with Raise NotImpl => true | _ => false end in "
           "let m := m3_evaluate G T CST (lift3 f) in let m' := m3_evaluate G T' CST (lift3 f) in "
           "(skip m || res_eqb tv_eqb m ev) && (skip m' || res_eqb tv_eqb m' ev') "
-          "&& Bool.eqb (m3_kselfrec G T (lift3 f)) ks && Bool.eqb (m3_knth T (lift3 f)) kn")
+          "&& Bool.eqb (m3_kselfrec G T (lift3 f)) ks && Bool.eqb (m3_knth T (lift3 f)) kn "
+          "&& Bool.eqb (m3_kcount G T (lift3 f)) kc")
 # direct tie of quantified_formula_might_match
 OK_QMM = ("fun c : nat * var * path * option mexpr * list N * path * bool => "
           "let '(k, v, ip, m, am, leaf, r) := c in let '(G, T, _) := nth k ENV ([], DUMMY, DUMMY) in "
@@ -207,7 +353,10 @@ def run(run):
         "epsilon; every 4th re-parsed = parser shape), t = t' with 1-4 random nonterminal subtrees cut to open "
         "leaves keeping all node ids; formulas: the C03 generator (quantifier chains 1-3 with/without match "
         "expressions, not/and/or over all 9 structural predicates, count, string equality, str.len) plus "
-        "formulas with instantiated tree arguments (predicate argument / quantifier `in` is a subtree of t'). "
+        "formulas with instantiated tree arguments (predicate argument / quantifier `in` is a subtree of t'), "
+        "6 nested quantifiers `Q <A> a in start: Q <B> v in a: ...` (B reachable from A) and 6 count atoms (plain / "
+        "negated, recursive needle that labels an open leaf, target = current count, +-1) per pair; every other "
+        "pair has 2-4 open leaves of ONE nonterminal in different subtrees. "
         "Both trees go through isla.evaluator.evaluate with the same formula object and through the Coq model; "
         "the implication (definite verdict on t => same verdict on t') is checked on the implementation. "
         "non-trivial = the verdict on t' is not the same for all trees generated for the grammar, or the "
@@ -219,12 +368,13 @@ def run(run):
     known = {e["class"]: e for e in known_entries() if e.get("status") == "open"}
 
     n_pairs = 40 if thorough else 8
-    n_formulas = 60 if thorough else 16
+    n_formulas = 50 if thorough else 12
     envs, all_cs, all_ms, all_qcs, all_qms = [], [], [], [], []
     hist = {"open_TT": 0, "open_FF": 0, "open_UU": 0, "open_raise": 0, "closed_TT": 0, "closed_FF": 0,
             "closed_UU": 0, "closed_raise": 0, "definite_on_open": 0, "with_mexpr": 0, "tree_args": 0,
-            "unencodable": 0, "flips": 0, "flips_known": 0, "qmm_calls": 0, "qmm_true": 0, "cuts": 0}
-    flips = []
+            "unencodable": 0, "flips": 0, "flips_known": 0, "qmm_calls": 0, "qmm_true": 0, "cuts": 0,
+            "pairs_with_repeated_open_type": 0, "evaluate_timeouts": 0, "nested_in_outer_var": 0, "count_atoms": 0}
+    flips, timeouts = [], []
     reach_cases, reach_meta = [], []
     verdicts = {}
     for gname, g in GRAMMARS.items():
@@ -254,29 +404,50 @@ def run(run):
                     tp = T.from_parse_tree(next(EarleyParser(g).parse(str(tp))))
                 except Exception:
                     pass
-            cuts = rand_cuts(rng, tp)
+            # every other pair: several open leaves of the SAME nonterminal in different subtrees
+            if k % 2 == 1:
+                cuts = same_type_cuts(rng, tp)
+                for _ in range(6):
+                    if len({tp.get_subtree(p).value for p in cuts}) < len(cuts):
+                        break
+                    tp2 = rand_derivation(rng, cg, md, "<start>", rng.randint(5, 8))
+                    if len(tp2.paths()) <= 70:
+                        tp = tp2
+                        cuts = same_type_cuts(rng, tp)
+            else:
+                cuts = rand_cuts(rng, tp)
+            labels = [tp.get_subtree(p).value for p in cuts]
+            hist["pairs_with_repeated_open_type"] += len(set(labels)) < len(labels)
             t = prune(tp, cuts)
             hist["cuts"] += len(cuts)
             env_idx = "@K@"
             envs.append(f"({g_grammar(cg)}, {g_tree(t)}, {g_tree(tp)})")
             cs, ms = [], []
             extra = [(1000 + i, ast, build3(ast)) for i, ast in enumerate(tree_arg_formulas(rng, g, tp))]
+            extra += [(2000 + i, ast, build(ast)) for i, ast in enumerate(nested_formulas(rng, g, graph, tp, cuts))]
+            extra += [(3000 + i, ast, build(ast)) for i, ast in enumerate(count_formulas(rng, g, graph, t))]
             for (fi, ast, fobj) in compiled + extra:
-                r = impl_evaluate(fobj, t, g)
-                rp = impl_evaluate(fobj, tp, g)
-                ks, kn = py_kselfrec(graph, t, fobj), py_knth(t, fobj)
+                r = impl_evaluate_t(fobj, t, g)
+                rp = impl_evaluate_t(fobj, tp, g)
+                if r[0] == "timeout" or rp[0] == "timeout":
+                    hist["evaluate_timeouts"] += 1
+                    timeouts.append({"grammar": gname, "open": str(t), "closed": str(tp), "formula": str(fobj)})
+                    continue
+                ks, kn, kc = py_kselfrec(graph, t, fobj), py_knth(t, fobj), py_kcount(graph, t, fobj)
                 hist["open_" + (r[1] if r[0] == "ok" else "raise")] += 1
                 hist["closed_" + (rp[1] if rp[0] == "ok" else "raise")] += 1
                 definite = r[0] == "ok" and r[1] != "UU"
                 hist["definite_on_open"] += definite
                 hist["with_mexpr"] += (fi < 1000 and has_mexpr(ast))
-                hist["tree_args"] += fi >= 1000
+                hist["tree_args"] += 1000 <= fi < 2000
+                hist["nested_in_outer_var"] += 2000 <= fi < 3000
+                hist["count_atoms"] += fi >= 3000
                 key = (gname, fi if fi < 1000 else str(fobj))
                 verdicts.setdefault(key, set()).add(rp)
                 meta = {"grammar": gname, "tree_open": tree_json(t), "tree_closed": tree_json(tp),
                         "open": str(t), "closed": str(tp), "cuts": sorted(map(list, cuts)),
                         "formula": str(fobj), "verdict_open": r, "verdict_closed": rp,
-                        "K_selfrec_open": ks, "K_nth_open": kn, "key": key, "definite": definite}
+                        "K_selfrec_open": ks, "K_nth_open": kn, "K_count_insert": kc, "key": key, "definite": definite}
                 try:
                     meta["ast_pickle"] = base64.b64encode(pickle.dumps(ast)).decode()
                 except Exception:
@@ -285,7 +456,7 @@ def run(run):
                     flips.append(meta)
                 try:
                     lit = g_formula(fobj, g)
-                    cs.append(f"({env_idx}%nat, {lit}, {g_out_tv(r)}, {g_out_tv(rp)}, {g_bool(ks)}, {g_bool(kn)})")
+                    cs.append(f"({env_idx}%nat, {lit}, {g_out_tv(r)}, {g_out_tv(rp)}, {g_bool(ks)}, {g_bool(kn)}, {g_bool(kc)})")
                     ms.append(meta)
                 except Unencodable as e:
                     hist["unencodable"] += 1
@@ -333,6 +504,7 @@ def run(run):
         for m in ms:
             run.count((m["key"], m["open"], m["closed"]), m["key"] in nonconst or m["definite"])
     run.cov["histogram"] = hist
+    run.cov["evaluate_timeouts_first"] = timeouts[:3]
     run.cov["pairs"] = len(envs)
     run.cov["formula_pairs"] = sum(len(ms) for ms in all_ms)
     # few coqc processes (start-up dominates): a shard holds several (grammar, t, t') triples in a
@@ -382,7 +554,8 @@ def run(run):
     hist["flips"] = len(flips)
     unknown = []
     for m in flips:
-        cls = "K_selfrec_open" if m["K_selfrec_open"] else "K_nth_open" if m["K_nth_open"] else None
+        cls = ("K_selfrec_open" if m["K_selfrec_open"] else "K_nth_open" if m["K_nth_open"]
+               else "K_count_insert" if m["K_count_insert"] else None)
         if cls and cls in known:
             run.known(known[cls]["what"])
             hist["flips_known"] += 1
